@@ -96,7 +96,7 @@ pub fn run(tier: Tier, seed: u64) -> i32 {
         }
         Err(e) => cx.violate_case("history/setup", e, json!({})),
     }));
-    tot.merge(fw::run_items("C01", &apis, |a| a.name().to_string(), |api, cx| super::c07::part_a(api, 0, seed, cx, Mode::Honest)));
+    tot.merge(fw::run_items("C01", &apis, |a| a.name().to_string(), |api, cx| super::c07::part_a(api, 0, false, seed, cx, Mode::Honest)));
     let ts: Vec<super::c05::Triple> = super::c05::triples(tier);
     let mut sorted = ts.clone();
     sorted.sort_by_key(|t| fw::h128(t));
